@@ -106,7 +106,7 @@ class Mode:
 
     def assume(self, f):
         if self.symbolic:
-            Ctx.cur.add(self._f(f))
+            Ctx.cur.add(self._fix_tol(self._f(f)) if isinstance(self._f(f), z3.ExprRef) else self._f(f))
         else:
             if not bool(f):
                 raise core.Abort("assumption not met by the replay values")
@@ -292,17 +292,20 @@ class Mode:
     def observe(self, name, a):
         self.observed[name] = self.vals(a)
 
+    def _fix_tol(self, f):
+        return core.subst_const(f, TOLV, core.realval(self.tol)) if isinstance(f, z3.ExprRef) else f
+
     def decide(self, f):
         """Truth of a formula on this path (forks in symbolic mode)."""
         f = self._f(f)
         if self.symbolic:
-            return Ctx.cur.branch(f) if isinstance(f, z3.ExprRef) else bool(f)
+            return Ctx.cur.branch(self._fix_tol(f)) if isinstance(f, z3.ExprRef) else bool(f)
         return bool(f)
 
     def entailed(self, f):
         f = self._f(f)
         if self.symbolic:
-            return Ctx.cur.entails(f)
+            return Ctx.cur.entails(self._fix_tol(f))
         return bool(f)
 
 
